@@ -181,7 +181,8 @@ def run_negative(report):
 def main(argv):
     common.setup_env()
     tier = common.tier_from_args(argv)
-    report = Report("C18", tier, common.seed_from_env())
+    report = Report("C18", tier, common.seed_from_env(), level="other")
+    report.explanation = ("machine-checked theorems cover nanoemoji's own designspace logic and the convexity argument; the property's main content (interpolation by ufo2ft/fontTools) cannot be modelled and is decided by instantiating real CLI builds")
     report.rule = (
         "two- and three-master configurations with structurally identical sources (same shapes and colours, different sizes "
         "and positions), varying default master and metrics, built through the real CLI; the variable font is instantiated "
